@@ -79,7 +79,7 @@ def st_signal(sig):
 
 
 class VProc:
-    __slots__ = ("pid", "key", "name", "env", "cwd", "argv", "out_fd", "err_fd", "state", "status",
+    __slots__ = ("pid", "key", "name", "env", "cwd", "argv", "out_fd", "err_fd", "state", "status", "no_effects",
                  "pgid", "popen_kw", "behaviour", "unrelated")
 
     def __init__(self, pid):
@@ -91,6 +91,7 @@ class VProc:
         self.argv = None
         self.out_fd = None
         self.err_fd = None
+        self.no_effects = False
         self.state = "run"  # run | zombie | reaped
         self.status = None
         self.pgid = pid
@@ -133,6 +134,7 @@ class VK:
         self.max_running = 0
         self.abort_on = None
         self.wakeup_fd = -1
+        self.sigmask = set()
         for k, b in self.behaviours.items():
             if b.get("sigint_while_running"):
                 self.abort_on = k
@@ -193,6 +195,14 @@ class VK:
 
     def _child_exit_effects(self, proc):
         b = proc.behaviour or {}
+        if proc.no_effects:
+            # the child never got as far as exec: it wrote nothing
+            for attr in ("out_fd", "err_fd"):
+                fd = getattr(proc, attr)
+                if fd is not None:
+                    os.close(fd)
+                    setattr(proc, attr, None)
+            return
         try:
             if b.get("writes"):
                 # interleaved writes: [("o"|"e", bytes), ...] in this order
@@ -322,7 +332,11 @@ class VK:
                         sorted(p.key for p in self.procs.values() if p.state != "run" and p.status == 0))
                 # what happens next is decided by the disposition the process has for that signal at this moment
                 h = _real_signal.getsignal(signum)
-                if h == _real_signal.SIG_IGN:
+                if int(signum) in self.sigmask:
+                    # blocked: the signal stays pending in the kernel for as long as the mask holds (here: for good, unless
+                    # the code unblocks it - which this model does not follow up)
+                    self.ev("signal-blocked", signame)
+                elif h == _real_signal.SIG_IGN:
                     self.ev("signal-ignored", signame)
                 elif h == _real_signal.SIG_DFL or h is None:
                     self._fail(KilledByDefaultAction("%s arrived while its disposition was the default action" % signame))
@@ -521,6 +535,21 @@ class VK:
         self.ev("sigaction", "handler" if callable(handler) else str(handler))
         return old
 
+    def pthread_sigmask(self, how, mask):
+        """The signal mask of Conductor's main thread, kept virtual (the harness process's real mask is never touched)."""
+        old = set(self.sigmask)
+        mask = {int(x) for x in mask}
+        if how == _real_signal.SIG_BLOCK:
+            self.sigmask |= mask
+        elif how == _real_signal.SIG_UNBLOCK:
+            self.sigmask -= mask
+        elif how == _real_signal.SIG_SETMASK:
+            self.sigmask = set(mask)
+        else:
+            raise OSError(errno.EINVAL, "Invalid argument")
+        self.ev("sigmask", sorted(self.sigmask))
+        return {_real_signal.Signals(x) for x in old}
+
     def release_lingering(self):
         """The background grandchildren that kept a task's stdout open write their last bytes and exit."""
         n = 0
@@ -600,6 +629,21 @@ class FakePopen(_real_subprocess.Popen):
         self._close_pipe_fds(p2cread, p2cwrite, c2pread, c2pwrite, errread, errwrite)
         self.pid = vk.spawn(self, args, executable, shell, cwd, env, out_fd, err_fd, start_new_session)
         self._child_created = True
+        if beh.get("exec_fail"):
+            # The fork succeeded but the child could not chdir/exec: it reports the error through the error pipe and exits
+            # with 255.  Popen.__init__ then reaps it with waitpid(pid) - unless a SIGCHLD handler that uses waitpid(-1) got
+            # there first (the handler runs at the next bytecode boundary) - and raises the child's error in the parent.
+            proc = vk.procs[self.pid]
+            proc.no_effects = True
+            vk.ev("execfail", self.pid, key)
+            vk._do_exit(proc, st_exit(255), why="exit")
+            try:
+                pid, sts = vk.waitpid(self.pid, os.WNOHANG, who="popen-init")
+                if pid == self.pid:
+                    self._handle_exitstatus(sts)
+            except ChildProcessError:
+                pass
+            raise FileNotFoundError(errno.ENOENT, os.strerror(errno.ENOENT), os.fspath(cwd) if cwd is not None else None)
         # The child exists; Popen.__init__ has not returned yet.
         vk.after_spawn_point()
 
@@ -633,7 +677,8 @@ def make_os_facade():
 
 def make_signal_facade():
     return Facade(_real_signal, {"signal": lambda signum, handler: _cur().signal(signum, handler),
-                                 "set_wakeup_fd": lambda fd, **kw: _cur().set_wakeup_fd(fd, **kw)})
+                                 "set_wakeup_fd": lambda fd, **kw: _cur().set_wakeup_fd(fd, **kw),
+                                 "pthread_sigmask": lambda how, mask: _cur().pthread_sigmask(how, mask)})
 
 
 def make_subprocess_facade():
